@@ -145,8 +145,14 @@ impl<'a, H: HashChain> InMemoryHssSignature<'a, H> {
     pub fn new(data: &'a [u8]) -> Option<Self> {
         let mut index = 0;
 
+        if data.len() < 4 {
+            return None;
+        }
         let level =
             u32::from_be_bytes(read_and_advance(data, 4, &mut index).try_into().unwrap()) as usize;
+        if level >= MAX_ALLOWED_HSS_LEVELS {
+            return None;
+        }
 
         let mut signed_public_keys = ArrayVec::new();
 
